@@ -134,6 +134,8 @@ def _gen_script(rng, kind, faulty):
         s["eval"] = "ok"
     if kind == "stublocal":
         s["stdout"] = rng.choice(["", "hello\n", "line1\nline2\n"])
+    if kind != "stubpoll" and rng.random() < 0.25:
+        s["ignores_term"] = True  # the program ignores SIGTERM; only SIGKILL ends it
     if kind not in ("stublocal", "stubpoll") and rng.random() < 0.2:
         s["case"] = "lower"  # a legal behaviour of the program: the same alignment, residues printed in lower case
     if not faulty:
